@@ -48,4 +48,17 @@ PROPS = {
         "rule": "oracle on every 3rd level per channel (quick) / all 2^24 (thorough) x 3 types: alpha, black, retained cones; correspondence with the Lean model as the independent evaluation on a lattice + random HSL-float colours (8-bit channels within one step = property, exact = tie)",
         "trust": ["the independent evaluation is the Lean model read at Float"],
     },
+    "C14": {
+        "rule": "rearrange_sequence on lists of length 0..40 (duplicates, equidistant) vs brute-force farthest-first; SimulatedAnnealing::with_rng under 6 replayed random streams (seeded, all-zero, all-one, alternating, counter, skewed) x target x mode x metric x every num_fixed in 0..n, n<=6 (quick) / 8; the model consumes the logged raw draws and must end in the same colours and table; distinct_colors with the real RNG; non-trivial = at least one free colour and one iteration",
+        "trust": [
+                "the model of rand 0.9 StandardUniform/random_range is validated by the correspondence only",
+                "ThreadRng is replaced by replayed streams"
+        ]
+},
+    "C15": {
+        "rule": "small scope: all starting tables of 2..3 (quick) / 2..4 colours over a 6-point alphabet with a duplicate and collinear equidistant points, update sequences of depth 2 (quick, sampled) / 3, every num_fixed; random histories of 300 (quick) / 2000 updates on 2..12 colours with coarse-grid ties; brute-force recomputation after every step; all histories non-trivial (ties/duplicates present)",
+        "trust": [
+                "needs the pastel_verif hook (DistanceResult::verif_new/verif_update)"
+        ]
+},
 }
